@@ -279,7 +279,7 @@ impl StringPool {
             writer.write_u16::<LittleEndian>((length & 0xffff) as u16)?;
             writer.write_u16::<LittleEndian>(refcount)?;
         }
-        Ok(())
+        writer.flush()
     }
 
     /// Writes to the `_StringData` table.
@@ -287,7 +287,7 @@ impl StringPool {
         for (string, _) in self.strings.iter() {
             writer.write_all(&self.codepage.encode(string.as_str()))?;
         }
-        Ok(())
+        writer.flush()
     }
 }
 
